@@ -2869,8 +2869,9 @@ static int cfg_opt_print_pff_indent(cfg_opt_t *opt, FILE *fp,
 			fprintf(fp, "}");
 		} else {
 			cfg_indent(fp, indent);
-			/* comment out the option if is not set */
-			if (cfg_opt_size(opt) == 0 ||
+			/* comment out the option if is not set; the value of a
+			 * CFG_SIMPLE_* option is the caller's variable */
+			if ((cfg_opt_size(opt) == 0 && !opt->simple_value.ptr) ||
 			    (opt->type == CFGT_STR && !cfg_opt_getnstr(opt, 0)))
 				fprintf(fp, "# ");
 			cfg_print_name(opt->name, fp);
